@@ -3,6 +3,7 @@ import SaModel.Lemmas.C06Readable
 import SaModel.Lemmas.C02Container
 import SaModel.Lemmas.C03Finish
 import SaModel.Lemmas.C01NewShape
+import SaModel.Lemmas.C03ObsFinish
 /-
 C06 (closure): the size precondition `Read.physical` of the reader for the arrays built from a TRACED schema with
 dictionary columns — without counting distinct strings.
@@ -175,22 +176,23 @@ theorem physBU_of_room : ∀ (bl : BL) (ufs : UFields) (k : Nat), BuiltForU ufs 
       physBU_of_room r fr (k + 1) hb.2.2.2 hk.2 (by omega)⟩
 end
 
-/-! ### through `into_array` -/
+/-! ### through `into_array` (on the WEAK state invariant `WFH` of the hidden-rows refinement: no `Safe`; the placeholder
+branch of `DictionaryUtf8Builder::into_array` appends ONE dummy value, still far below `i64::MAX`) -/
 
 theorem physical_finishLeaf (k : LeafKind) (v : Validity) (vals : List Int) :
     Read.physical (finishLeaf k v vals) = true := by
   cases k <;> simp [finishLeaf, Read.physical]
 
-theorem dec_bytes_length {p ty v offs data} (h : WFB (.bytes p ty v offs data)) :
+theorem dec_bytes_length {p ty v offs data} (h : WFH (.bytes p ty v offs data)) :
     (dec (.bytes p ty v offs data)).length = offs.length - 1 := by
-  simp only [WFB] at h
+  simp only [WFH] at h
   simp only [dec]
   rw [Build.maskNull_length (by simpa [Build.pairs_length] using h.2)]
   simp [Build.pairs_length]
 
 mutual
 /-- **`into_array` of a `PhysB` state is `physical`** -/
-theorem finish_physical (ext : Ext) : ∀ (b : B) (a : Arr), finish ext b = .ok a → WFB b → PhysB b →
+theorem finish_physical (ext : Ext) : ∀ (b : B) (a : Arr), finish ext b = .ok a → WFH b → PhysB b →
     Read.physical a = true
   | .null _ _, a, h, _, _ => by simp only [finish] at h; cases h; simp [Read.physical]
   | .unknownVariant _, a, h, _, _ => by simp only [finish] at h; cases h; simp [Read.physical]
@@ -207,7 +209,7 @@ theorem finish_physical (ext : Ext) : ∀ (b : B) (a : Arr), finish ext b = .ok 
     obtain ⟨ea, he, h⟩ := Read.bind_ok_inv h
     cases h
     simp only [Read.physical]
-    exact finish_physical ext el ea he (WFB_list hw).2.2 (by simpa [PhysB] using hp)
+    exact finish_physical ext el ea he (WFH_list hw).2.2 (by simpa [PhysB] using hp)
   | .fixedSizeList _ _ _ _ _ _ _, _, _, _, hp => by simp [PhysB] at hp
   | .map _ _ _ _ ks vs, a, h, hw, hp => by
     simp only [finish] at h
@@ -216,18 +218,18 @@ theorem finish_physical (ext : Ext) : ∀ (b : B) (a : Arr), finish ext b = .ok 
     cases h
     simp only [PhysB] at hp
     simp only [Read.physical, Bool.and_eq_true]
-    have hwm := WFB_map hw
+    have hwm := WFH_map hw
     exact ⟨finish_physical ext ks ka hk hwm.2.2.2.1 hp.1, finish_physical ext vs va hv hwm.2.2.2.2 hp.2⟩
   | .struct _ len _ fs _ _ _, a, h, hw, hp => by
     simp only [finish] at h
     obtain ⟨afs, hf, h⟩ := Read.bind_ok_inv h
     cases h
     simp only [Read.physical]
-    exact finishFields_physical ext fs afs hf (WFL_WFBs fs len (WFB_struct hw).2) (by simpa [PhysB] using hp)
+    exact finishFields_physical ext fs afs hf (WFHL_WFHs fs len (WFH_struct hw).2) (by simpa [PhysB] using hp)
   | .dictionary _ idx vals index, a, h, hw, hp => by
     simp only [PhysB] at hp
     obtain ⟨hlen, p, ty, v, offs, data, rfl⟩ := hp
-    have hwd := WFB_dictionary hw
+    have hwd := WFH_dictionary hw
     have hl := dec_bytes_length hwd.2.1
     rw [hwd.2.2] at hl
     have hmax : Read.i64Max.toNat = 9223372036854775807 := by decide
@@ -249,8 +251,8 @@ theorem finish_physical (ext : Ext) : ∀ (b : B) (a : Arr), finish ext b = .ok 
     obtain ⟨afs, hf, h⟩ := Read.bind_ok_inv h
     cases h
     simp only [Read.physical]
-    exact finishUFields_physical ext fs 0 afs hf (WFU_WFBs fs cur (WFB_union hw).2.1) (by simpa [PhysB] using hp)
-theorem finishFields_physical (ext : Ext) : ∀ (fs : BL) (afs : ArrFields), finishFields ext fs = .ok afs → WFBs fs →
+    exact finishUFields_physical ext fs 0 afs hf (WFHU_WFHs fs cur (WFH_union hw).2.1) (by simpa [PhysB] using hp)
+theorem finishFields_physical (ext : Ext) : ∀ (fs : BL) (afs : ArrFields), finishFields ext fs = .ok afs → WFHs fs →
     PhysBL fs → Read.physicalFields afs = true
   | .nil, afs, h, _, _ => by simp only [finishFields] at h; cases h; simp [Read.physicalFields]
   | .cons b m rest, afs, h, hw, hp => by
@@ -258,12 +260,12 @@ theorem finishFields_physical (ext : Ext) : ∀ (fs : BL) (afs : ArrFields), fin
     obtain ⟨a, ha, h⟩ := Read.bind_ok_inv h
     obtain ⟨r, hr, h⟩ := Read.bind_ok_inv h
     cases h
-    simp only [WFBs] at hw
+    simp only [WFHs] at hw
     simp only [PhysBL] at hp
     simp only [Read.physicalFields, Bool.and_eq_true]
     exact ⟨finish_physical ext b a ha hw.1 hp.1, finishFields_physical ext rest r hr hw.2 hp.2⟩
 theorem finishUFields_physical (ext : Ext) : ∀ (fs : BL) (idx : Nat) (afs : ArrUFields),
-    finishUFields ext fs idx = .ok afs → WFBs fs → PhysBL fs → Read.physicalUFields afs = true
+    finishUFields ext fs idx = .ok afs → WFHs fs → PhysBL fs → Read.physicalUFields afs = true
   | .nil, _, afs, h, _, _ => by simp only [finishUFields] at h; cases h; simp [Read.physicalUFields]
   | .cons b m rest, idx, afs, h, hw, hp => by
     simp only [finishUFields] at h
@@ -272,7 +274,7 @@ theorem finishUFields_physical (ext : Ext) : ∀ (fs : BL) (idx : Nat) (afs : Ar
     obtain ⟨a, ha, h⟩ := Read.bind_ok_inv h
     obtain ⟨r, hr, h⟩ := Read.bind_ok_inv h
     cases h
-    simp only [WFBs] at hw
+    simp only [WFHs] at hw
     simp only [PhysBL] at hp
     simp only [Read.physicalUFields, Bool.and_eq_true]
     exact ⟨finish_physical ext b a ha hw.1 hp.1, finishUFields_physical ext rest (idx + 1) r hr hw.2 hp.2⟩
@@ -289,14 +291,14 @@ theorem physicalFields_mem : ∀ (afs : ArrFields), Read.physicalFields afs = tr
 
 /-- **`build_arrays` of a `PhysB` root gives `physical` arrays** -/
 theorem buildArrays_physical (ext : Ext) (root rest : B) (arrs : List Arr)
-    (h : buildArrays ext root = .ok (arrs, rest)) (hw : WFB root) (hp : PhysB root) : ∀ a ∈ arrs, Read.physical a = true := by
+    (h : buildArrays ext root = .ok (arrs, rest)) (hw : WFH root) (hp : PhysB root) : ∀ a ∈ arrs, Read.physical a = true := by
   cases root with
   | struct p len v fs cached next seen =>
     simp only [buildArrays] at h
     obtain ⟨cols, hc, h⟩ := Read.bind_ok_inv h
     simp only [pure, Except.pure, Except.ok.injEq, Prod.mk.injEq] at h
     obtain ⟨rfl, _⟩ := h
-    have := finishFields_physical ext fs cols hc (WFL_WFBs fs len (WFB_struct hw).2) (by simpa [PhysB] using hp)
+    have := finishFields_physical ext fs cols hc (WFHL_WFHs fs len (WFH_struct hw).2) (by simpa [PhysB] using hp)
     intro a ha
     obtain ⟨c, hc, rfl⟩ := List.mem_map.mp ha
     exact physicalFields_mem cols this c hc
